@@ -372,6 +372,7 @@ def enumerate_paths(cfg: CFG, start, *, stop=None, edge_ok=None, max_paths=5000,
             if key in cfg.back_edges:
                 c = used.get(key, 0)
                 if c >= loop_unroll:
+                    out.append(path + [e])  # the path ends where the next iteration would begin
                     continue
                 u = dict(used)
                 u[key] = c + 1
